@@ -186,6 +186,9 @@ class Module:
         except SyntaxError as e:
             raise AnalysisError('module %s does not parse: %s' % (path, e))
         self.inlined = inline_expression_helpers(self.tree)
+        self.propagated = propagate_simple_constants(self.tree)
+        self.aliases_inlined = inline_pure_aliases(self.tree)
+        self.tail_inlined = inline_tail_helpers(self.tree)
         for parent in ast.walk(self.tree):
             for ch in ast.iter_child_nodes(parent):
                 ch._parent = parent
@@ -268,6 +271,27 @@ class Repo:
         for fn in sorted(os.listdir(self.pkgdir)):
             if fn.endswith('.py') and fn[:-3] not in self.modules:
                 self.modules[fn[:-3]] = Module(fn[:-3], os.path.join(self.pkgdir, fn))
+        # literals moved to module level and imported elsewhere: second propagation pass over the importers
+        for m in self.modules.values():
+            extra = {}
+            for local, imp in m.imports.items():
+                if imp[0] == 'from':
+                    mn = self.modname(imp[1])
+                    if mn and imp[2] in self.modules[mn].propagated:
+                        extra[local] = self.modules[mn].propagated[imp[2]]
+            for sm in m.star_imports:
+                mn = self.modname(sm)
+                if mn:
+                    m2 = self.modules[mn]
+                    for nm, c in m2.propagated.items():
+                        if (m2.all_names is None and not nm.startswith('_')) or (m2.all_names is not None and nm in m2.all_names):
+                            extra.setdefault(nm, c)
+            if extra:
+                done = propagate_simple_constants(m.tree, extra)
+                if done:
+                    for parent in ast.walk(m.tree):
+                        for ch in ast.iter_child_nodes(parent):
+                            ch._parent = parent
         self._fold_cache = {}
         self._folding = set()
         self._resolve_classes()
@@ -750,6 +774,232 @@ def _pure_simple(e):
     return False
 
 
+# module-level names with a literal initialiser that the rules refer to by name (they stay names)
+PINNED_CONSTANT_NAMES = {'MODE_MATH', 'MODE_NON_MATH', 'MODE_SPECIAL', '__version__'}
+
+
+def propagate_simple_constants(tree, extra=None):
+    """"Move a literal to module level" is a behaviour-preserving refactoring the rules should not notice: a
+    module-level name bound exactly once to a str/int/bytes literal, never rebound or declared global, is replaced by
+    the literal where it is read inside the module (the definition stays).  `extra` maps imported names to literals
+    (second pass over importing modules).  Returns the propagated names."""
+    import copy
+    consts = dict(extra or {})
+    stores = {}
+    for n in ast.walk(tree):
+        if isinstance(n, ast.Name) and isinstance(n.ctx, (ast.Store, ast.Del)):
+            stores[n.id] = stores.get(n.id, 0) + 1
+        elif isinstance(n, (ast.Global, ast.Nonlocal)):
+            for x in n.names:
+                stores[x] = stores.get(x, 0) + 2
+        elif isinstance(n, ast.arg):
+            stores[n.arg] = stores.get(n.arg, 0) + 2
+    if extra is None:
+        for st in tree.body:
+            if isinstance(st, ast.Assign) and len(st.targets) == 1 and isinstance(st.targets[0], ast.Name) \
+                    and isinstance(st.value, ast.Constant) and isinstance(st.value.value, (str, int, bytes)) \
+                    and not isinstance(st.value.value, bool):
+                nm = st.targets[0].id
+                if nm not in PINNED_CONSTANT_NAMES and not nm.startswith('__') and stores.get(nm, 0) == 1:
+                    consts[nm] = st.value
+    else:
+        consts = {k: v for k, v in consts.items() if stores.get(k, 0) == 0}
+    if not consts:
+        return {}
+
+    class P(ast.NodeTransformer):
+        def visit_Name(self, n):
+            if isinstance(n.ctx, ast.Load) and n.id in consts:
+                return ast.copy_location(copy.deepcopy(consts[n.id]), n)
+            return n
+    P().visit(tree)
+    return consts
+
+
+# the functions the rules are anchored in by name: they are never dissolved into their callers
+PINNED_FUNCTION_NAMES = {
+    'IntEnum', 'TexSoup', 'categorize', 'make_read_peek', 'next_token', 'read', 'read_arg', 'read_arg_optional',
+    'read_arg_required', 'read_args', 'read_command', 'read_env', 'read_expr', 'read_item', 'read_math_env',
+    'read_skip_env', 'read_spacer', 'read_tex', 'to_buffer', 'to_list', 'token', 'tokenize', 'tokenize_command_name',
+    'tokenize_escaped_symbols', 'tokenize_ignore', 'tokenize_line_break', 'tokenize_line_comment',
+    'tokenize_math_asym_switch', 'tokenize_math_sym_switch', 'tokenize_punctuation_command_name', 'tokenize_spacers',
+    'tokenize_string', 'tokenize_symbols', 'unclosed_env_handler'}
+
+
+def inline_tail_helpers(tree):
+    """"Extract a branch into its own function" is invisible to the analyses: a module-level, undecorated,
+    non-generator, non-recursive function F with exactly one reference in the module, which is a tail call
+    `return F(<names>)` inside another module-level function G, is pasted over that return statement (parameters
+    renamed to the argument names; omitted parameters bound to their defaults).  In tail position F's returns are
+    G's returns and G's own locals are dead, so the substitution preserves behaviour.  F, now unreferenced, is dropped from the analysed module.
+    Returns the list of (G, F) pairs."""
+    import copy
+    funcs = {st.name: st for st in tree.body if isinstance(st, ast.FunctionDef)}
+    done = []
+    for fname, F in list(funcs.items()):
+        if F.decorator_list or F.args.vararg or F.args.kwarg or F.args.posonlyargs or fname in PINNED_FUNCTION_NAMES:
+            continue
+        if any(isinstance(n, (ast.Yield, ast.YieldFrom, ast.Global, ast.Nonlocal)) for n in ast.walk(F)):
+            continue
+        if any(isinstance(n, (ast.FunctionDef, ast.Lambda)) and n is not F for n in ast.walk(F)):
+            continue
+        refs = [n for n in ast.walk(tree) if isinstance(n, ast.Name) and n.id == fname and isinstance(n.ctx, ast.Load)]
+        if len(refs) != 1:
+            continue
+        # __all__ / strings naming the function are public API: still fine, F stays defined
+        site = None
+        for G in funcs.values():
+            if G is F:
+                continue
+            for n in ast.walk(G):
+                if isinstance(n, ast.Return) and isinstance(n.value, ast.Call) and n.value.func is refs[0]:
+                    site = (G, n)
+        if site is None:
+            continue
+        G, ret = site
+        call = ret.value
+        if any(isinstance(a, ast.Starred) or not isinstance(a, ast.Name) for a in call.args):
+            continue
+        if any(k.arg is None or not isinstance(k.value, (ast.Name, ast.Constant)) for k in call.keywords):
+            continue
+        params = [a.arg for a in F.args.args + F.args.kwonlyargs]
+        if len(call.args) > len(F.args.args):
+            continue
+        binding = {}
+        for p_, a in zip([a.arg for a in F.args.args], call.args):
+            binding[p_] = a
+        bad = False
+        for k in call.keywords:
+            if k.arg not in params or k.arg in binding:
+                bad = True
+            binding[k.arg] = k.value
+        defaults = {}
+        pos = F.args.args
+        for p_, d in zip(pos[len(pos) - len(F.args.defaults):], F.args.defaults):
+            defaults[p_.arg] = d
+        for p_, d in zip(F.args.kwonlyargs, F.args.kw_defaults):
+            if d is not None:
+                defaults[p_.arg] = d
+        pre = []
+        for p_ in params:
+            if p_ not in binding:
+                if p_ in defaults and isinstance(defaults[p_], (ast.Constant, ast.Name)):
+                    pre.append(ast.Assign([ast.Name(p_, ast.Store())], copy.deepcopy(defaults[p_])))
+                else:
+                    bad = True
+        if bad:
+            continue
+        fnames = {n.id for n in ast.walk(F) if isinstance(n, ast.Name)} | set(params)
+        ren = {}
+        for p_, a in binding.items():
+            if isinstance(a, ast.Constant):
+                pre.append(ast.Assign([ast.Name(p_, ast.Store())], copy.deepcopy(a)))
+            elif a.id != p_:
+                if a.id in fnames:
+                    bad = True
+                ren[p_] = a.id
+        # two parameters bound to the same caller variable would alias after renaming
+        if bad or len(set(ren.values()) | {p_ for p_ in binding if p_ not in ren}) < len([p_ for p_, a in binding.items() if isinstance(a, ast.Name)]):
+            continue
+        body = [copy.deepcopy(st) for st in F.body
+                if not (isinstance(st, ast.Expr) and isinstance(st.value, ast.Constant) and isinstance(st.value.value, str))]
+
+        class Ren(ast.NodeTransformer):
+            def visit_Name(self, n):
+                if n.id in ren:
+                    n.id = ren[n.id]
+                return n
+        body = [Ren().visit(st) for st in body]
+        new = pre + body
+        if not new or not isinstance(new[-1], (ast.Return, ast.Raise)):
+            new.append(ast.Return(ast.Constant(None)))
+        for st in new:
+            for x in ast.walk(st):
+                if not hasattr(x, 'lineno'):
+                    x.lineno, x.col_offset, x.end_lineno, x.end_col_offset = ret.lineno, 0, ret.lineno, 0
+
+        # paste over the return statement
+        def paste(stmts):
+            for i, st in enumerate(stmts):
+                if st is ret:
+                    stmts[i:i + 1] = new
+                    return True
+                for fld in ('body', 'orelse', 'finalbody'):
+                    sub = getattr(st, fld, None)
+                    if isinstance(sub, list) and paste(sub):
+                        return True
+                for h in getattr(st, 'handlers', []) or []:
+                    if paste(h.body):
+                        return True
+            return False
+        if paste(G.body):
+            done.append((G.name, fname))
+            # the only reference is gone: the stand-alone copy would be analysed without any calling context
+            tree.body.remove(F)
+    return done
+
+
+def inline_pure_aliases(tree):
+    """"Read an attribute once into a local" is invisible to the rules: inside a function, a local that is bound
+    exactly once, by a top-level statement `x = self.a.b` (a pure attribute chain rooted at `self`), is replaced by the
+    chain where it is read -- provided the function never stores to the chain's root attribute (`self.a = ...`), never
+    deletes it and declares nothing global.  Returns the list of (function, local) pairs."""
+    import copy
+    done = []
+    for fn in ast.walk(tree):
+        if not isinstance(fn, ast.FunctionDef):
+            continue
+        params = {a.arg for a in fn.args.args + fn.args.kwonlyargs + fn.args.posonlyargs}
+        if fn.args.vararg:
+            params.add(fn.args.vararg.arg)
+        if fn.args.kwarg:
+            params.add(fn.args.kwarg.arg)
+        if 'self' not in params:
+            continue
+        stores = {}
+        attr_stores = set()
+        nested = False
+        for n in ast.walk(fn):
+            if isinstance(n, ast.Name) and isinstance(n.ctx, (ast.Store, ast.Del)):
+                stores[n.id] = stores.get(n.id, 0) + 1
+            elif isinstance(n, ast.Attribute) and isinstance(n.ctx, (ast.Store, ast.Del)) and isinstance(n.value, ast.Name) \
+                    and n.value.id == 'self':
+                attr_stores.add(n.attr)
+            elif isinstance(n, (ast.Global, ast.Nonlocal)):
+                nested = True
+            elif isinstance(n, (ast.FunctionDef, ast.Lambda)) and n is not fn:
+                nested = True
+        if nested:
+            continue
+        env = {}
+        for st in fn.body:
+            if isinstance(st, ast.Assign) and len(st.targets) == 1 and isinstance(st.targets[0], ast.Name):
+                nm = st.targets[0].id
+                v = st.value
+                chain = []
+                x = v
+                while isinstance(x, ast.Attribute):
+                    chain.append(x.attr)
+                    x = x.value
+                if isinstance(x, ast.Name) and x.id == 'self' and chain and stores.get(nm, 0) == 1 and nm not in params \
+                        and chain[-1] not in attr_stores and len(chain) <= 2:
+                    env[nm] = v
+        if not env:
+            continue
+
+        class Sub(ast.NodeTransformer):
+            def visit_Name(self, n):
+                if isinstance(n.ctx, ast.Load) and n.id in env:
+                    return ast.copy_location(copy.deepcopy(env[n.id]), n)
+                return n
+        for st in fn.body:
+            if isinstance(st, ast.Assign) and len(st.targets) == 1 and isinstance(st.targets[0], ast.Name) and st.targets[0].id in env:
+                continue
+            Sub().visit(st)
+        done += [(fn.name, k) for k in env]
+    return done
+
+
 def inline_expression_helpers(tree):
     """Resolve trivial wrappers: a module-level, undecorated function whose body is a single `return <expr>` is
     substituted at its call sites inside other functions of the same module when every argument is a pure
@@ -855,3 +1105,103 @@ def resolve_locals(fnode, expr, depth=0):
                 return R(self.d + 1).visit(copy.deepcopy(assigns[n.id][0]))
             return n
     return R(depth).visit(copy.deepcopy(expr))
+
+
+def effective_method(cls, fd, depth=0):
+    """The method as the analyses should see it: a method whose body is the pure delegation
+    `return self.<private helper>(<simple arguments>)` is replaced by a synthetic copy of the helper with the arguments
+    substituted for its parameters (and `getattr(x, '<const>')` folded to an attribute), so that "merge similar
+    methods through a parameter" / "extract the body into a private method" refactorings present the original shape.
+    Returns a FuncDef (the given one when nothing applies)."""
+    import copy
+    body = [s for s in fd.node.body if not (isinstance(s, ast.Expr) and isinstance(s.value, ast.Constant)
+                                            and isinstance(s.value.value, str))]
+    if len(body) != 1 or not isinstance(body[0], ast.Return) or depth > 2:
+        return fd
+    c = body[0].value
+    if isinstance(c, ast.Call) and isinstance(c.func, ast.Name) and c.func.id == 'iter' and len(c.args) == 1 and not c.keywords:
+        c = c.args[0]       # iter(<generator>) is that generator
+    if not (isinstance(c, ast.Call) and isinstance(c.func, ast.Attribute) and isinstance(c.func.value, ast.Name)
+            and c.func.value.id == 'self' and c.func.attr.startswith('_') and not c.func.attr.endswith('__')):
+        return fd
+    owner, kind, h = cls.lookup(c.func.attr)
+    if kind != 'method' or h.decorators:
+        return fd
+    if any(isinstance(a, ast.Starred) for a in c.args) or any(k.arg is None for k in c.keywords):
+        return fd
+    params = h.params()[1:]
+    if h.node.args.vararg or h.node.args.kwarg or h.node.args.kwonlyargs:
+        return fd
+    env = dict(zip(params, c.args))
+    for k in c.keywords:
+        env[k.arg] = k.value
+    defaults = h.defaults()
+    for p_ in params:
+        if p_ not in env:
+            if p_ in defaults:
+                env[p_] = defaults[p_]
+            else:
+                return fd
+    if len(c.args) > len(params) or not all(_pure_simple(v) or isinstance(v, ast.Constant) for v in env.values()):
+        return fd
+    # parameters that the helper rebinds must be given names
+    stored = {n.id for n in ast.walk(h.node) if isinstance(n, ast.Name) and isinstance(n.ctx, (ast.Store, ast.Del))}
+    if any(p_ in stored and not isinstance(v, ast.Name) for p_, v in env.items()):
+        return fd
+
+    class Sub(ast.NodeTransformer):
+        def visit_Name(self, n):
+            if n.id in env and isinstance(n.ctx, ast.Load):
+                return ast.copy_location(copy.deepcopy(env[n.id]), n)
+            if n.id in env and isinstance(env[n.id], ast.Name):
+                n.id = env[n.id].id
+            return n
+
+        def visit_Call(self, n):
+            self.generic_visit(n)
+            # getattr(x, 'name') -> x.name
+            if isinstance(n.func, ast.Name) and n.func.id == 'getattr' and len(n.args) == 2 and isinstance(n.args[1], ast.Constant) \
+                    and isinstance(n.args[1].value, str) and n.args[1].value.isidentifier():
+                return ast.copy_location(ast.Attribute(n.args[0], n.args[1].value, ast.Load()), n)
+            return n
+    new = copy.deepcopy(h.node)
+    new.name = fd.node.name
+    new.args = copy.deepcopy(fd.node.args)
+    new = Sub().visit(new)
+    ast.fix_missing_locations(new)
+    for parent in ast.walk(new):
+        for ch in ast.iter_child_nodes(parent):
+            ch._parent = parent
+    syn = FuncDef(fd.module, fd.qual, new, cls=fd.cls, parent=fd.parent)
+    syn.inlined_from = h
+    return effective_method(cls, syn, depth + 1)
+
+
+def loop_form(fnode):
+    """A function whose body is `return (<elt> for <x> in <it> if <c>...)` (generator expression or list comprehension,
+    one generator) rewritten as the loop it abbreviates:  for <x> in <it>: if <c>: yield <elt>.  Returns a synthetic
+    FunctionDef (with parent links), or the given node when the body has another shape."""
+    import copy
+    body = [s for s in fnode.body if not (isinstance(s, ast.Expr) and isinstance(s.value, ast.Constant)
+                                          and isinstance(s.value.value, str))]
+    if len(body) != 1 or not isinstance(body[0], ast.Return) or not isinstance(body[0].value, (ast.GeneratorExp, ast.ListComp)):
+        return fnode
+    g = body[0].value
+    if len(g.generators) != 1 or g.generators[0].is_async:
+        return fnode
+    gen = g.generators[0]
+    y = ast.Expr(ast.Yield(copy.deepcopy(g.elt)))
+    inner = [y]
+    if gen.ifs:
+        test = copy.deepcopy(gen.ifs[0]) if len(gen.ifs) == 1 else ast.BoolOp(ast.And(), [copy.deepcopy(c) for c in gen.ifs])
+        inner = [ast.If(test, [y], [])]
+    loop = ast.For(copy.deepcopy(gen.target), copy.deepcopy(gen.iter), inner, [])
+    new = copy.copy(fnode)
+    new.body = [loop]
+    for x in ast.walk(loop):
+        if not hasattr(x, 'lineno'):
+            x.lineno, x.col_offset, x.end_lineno, x.end_col_offset = body[0].lineno, 0, body[0].lineno, 0
+    for parent in ast.walk(new):
+        for ch in ast.iter_child_nodes(parent):
+            ch._parent = parent
+    return new
